@@ -54,7 +54,29 @@ def gen_chain(src, opts):
         inp = typeof(node)[0]
         ints = sorted(n for n, d in inp.items() if d[0] != "real")
         reals = sorted(n for n, d in inp.items() if d[0] == "real")
-        op = g.pick(["add", "add", "subs_real", "subs_real", "subs_int", "rename", "affine_or_all", "align", "neg", "minus", "cat"])
+        op = g.pick(["add", "add", "subs_real", "subs_real", "subs_int", "rename", "affine_or_all", "align", "neg", "minus", "cat", "wrapped_subs", "wrapped_subs"])
+        if op == "wrapped_subs":
+            # substitute into a lazy term whose input order differs from the Gaussian's:
+            # the substitution then reaches the Gaussian in non-input order
+            if len(reals) < 2:
+                node = ("bin", "add", node, gauss_leaf(g, avail, nreal=3))
+                inp = typeof(node)[0]
+                reals = sorted(n for n, d in inp.items() if d[0] == "real")
+            if len(reals) >= 2:
+                ks = g.perm(reals)
+                lead = ("var", ks[-1], ("real", inp[ks[-1]][1]))
+                if inp[ks[-1]][1] != ():
+                    lead = ("unp", "sum", (None, False), lead)
+                wrapped = ("bin", "add", lead, node)
+                keys = ks[-2:] if len(ks) > 2 or g.chance(0.5) else ks
+                vals = []
+                for kname in keys:
+                    names = g.subset(avail, 0, 1)
+                    ins = tuple((n, g.sizes[n]) for n in names)
+                    cnt = g.numel([s for _, s in ins]) * numel(inp[kname][1])
+                    vals.append((kname, ("ten", ins, tuple(inp[kname][1]), "real", g.expand(WVALS, cnt), False)))
+                node = ("sub", wrapped, tuple(vals))
+            continue
         if op == "add":
             other = gauss_leaf(g, avail)
             node = ("bin", "add", node, other) if g.chance(0.5) else ("bin", "add", other, node)
